@@ -20,6 +20,9 @@ CHECKS = {
  'C10': ('differential testing across six Input back-ends over bounded-exhaustive and proptest-generated inputs',
          'C01 spaces + exhaustive scope with CR / multi-byte characters + block scalars under indentation 0..140: (event, span) lists and first error identical on StrInput, BufferedInput and TestInput<8,16,64,128>.',
          'TestInput replicates BufferedInput semantics with another capacity (>= 8); differential only (paired with the model-based checks).', '5 C10'),
+ 'C11': ('generated nesting scenarios (shape x API x depth) each executed in its own child process with an 8 MiB stack; exit status is the oracle',
+         '8 nesting shapes + random opener mixes x 7 APIs (iterator, Parser::load, load_from_str + forget / drop, MarkedYamlOwned + drop, built tree + drop, built tree + emit) x depths 1..3*10^4 (quick) / 10^5 (thorough); a child killed by a signal is a violation, with the smallest crashing depth bisected.',
+         'Quadratic scenarios are depth-capped (stated in the rule); the 8 MiB stack is the Linux main-thread default.', '5 C11'),
  'C12': ('bounded-exhaustive + proptest inputs against an independent line/column counter and source-lexing span oracles',
          'Every span endpoint and error marker is recomputed from the input characters (LF, CR, CRLF); nesting/order invariants; one-line plain and quoted scalar extents; Display format; MarkedYaml(Owned) node spans vs creating events.',
          'Synthesised null scalars and positions at end of input are exempt as stated in DESIGN.md §7 I5/I6; block scalar extent not asserted.', '5 C12'),
